@@ -60,3 +60,15 @@ Theorem C04_selection_pairing :
       dot K k0 kadd kmul (Select.sscatter K k0 kadd kmul n sel g) v = dot K k0 kadd kmul g (Select.sgather K k0 kmul sel v).
 Proof. intros K k0 k1 kadd kmul ksub kopp R n sel g v H1 H2 H3. exact (proj1 (Select.selection_rule_adjoint K k0 k1 kadd kmul ksub kopp R n sel g v H1 H2 H3)). Qed.
 Print Assumptions C04_selection_pairing.
+
+(* multilinear primitives (einsum with any number of operands): the partial map in operand k and the reverse rule for
+   operand k are adjoint for every tangent and every cotangent *)
+From AG Require Import Multilinear MultilinearPair.
+Theorem C04_multilinear_pairing :
+  forall (K : Type) (k0 k1 : K) (kadd kmul ksub : K -> K -> K) (kopp : K -> K),
+    ring_theory k0 k1 kadd kmul ksub kopp eq ->
+    forall k nk no S As g dA,
+      (k < length As)%nat -> List.Forall (Multilinear.in_bounds K k nk no (length As)) S -> length dA = nk -> length g = no ->
+      dot K k0 kadd kmul g (mul K k0 k1 kadd kmul no S (setn k dA As)) = dot K k0 kadd kmul (mvjp K k0 k1 kadd kmul k nk S g As) dA.
+Proof. exact multilinear_pairing. Qed.
+Print Assumptions C04_multilinear_pairing.
